@@ -79,7 +79,7 @@ class C20(Check):
             "CalculateBalance(0,1,6), TxStore.UnspentOutputs, UnminedTxHashes; order of SendRawTransaction calls. "
             "non-trivial = at least one broadcast attempt or re-broadcast; distinct by script")
     N_QUICK = 120
-    N_THOROUGH = 3000
+    N_THOROUGH = 2000
     SHARD = 12
     ASSUMPTIONS = [
         "the store refinement Inv (Tx/Inv.v) holds in the state of the attempt; over histories this is refinement_statement "
@@ -99,9 +99,20 @@ class C20(Check):
                      "internal/simchain (scripted chain.Interface) and the projection of wallet transactions to model ids"]
 
     def run(self, tier, seed, replay=None):
-        ensure_coq()                # the developments this one builds on
-        self.ensure_own_files()
-        return super().run(tier, seed, replay)
+        # Until the integrator lists this property's files in _CoqProject the
+        # full build does not know them: compile them right after it.
+        import vlib
+        orig = vlib.ensure_coq
+
+        def build_then_own():
+            r = orig()
+            self.ensure_own_files()
+            return r
+        vlib.ensure_coq = build_then_own
+        try:
+            return super().run(tier, seed, replay)
+        finally:
+            vlib.ensure_coq = orig
 
     def ensure_own_files(self):
         """Until the integrator lists this property's files in _CoqProject the
@@ -112,10 +123,6 @@ class C20(Check):
         if all(f in listed for f, _ in OWN):
             return
         with Lock("coq"):
-            ok, msg = regenerate()
-            if not ok:
-                return
-
             def mtime(p):
                 return os.path.getmtime(p) if os.path.exists(p) else None
             for f, deps in OWN:
@@ -131,6 +138,18 @@ class C20(Check):
                     if rc != 0:
                         log("C20: %s does not compile: %s" % (f, (out + err)[-800:]))
                         return
+
+    def gen_args(self, tier, seed):
+        nn = self.N_QUICK if tier == "quick" else self.N_THOROUGH
+        args = []
+        # minimised earlier failures run first
+        cdir = os.path.join(VERIF, "corpus", self.ID)
+        if os.path.isdir(cdir):
+            for f in sorted(os.listdir(cdir)):
+                if f.endswith(".jsonl"):
+                    args.append([self.vh_cmd(), "-replay", os.path.join(cdir, f)])
+        args.append([self.vh_cmd(), "-n", str(nn), "-seed", str(seed), "-tier", tier])
+        return args
 
     def nontrivial(self, c):
         return any(e["k"] in ("publish", "resend") for e in c["obs"]["events"])
